@@ -19,7 +19,7 @@ import threading
 
 from ..core import runner, snapshot, opwrap
 from ..model import refparse, refeval as M
-from . import c09
+from . import c07, c09
 
 ID = 'C01'
 
@@ -261,6 +261,94 @@ def sweep(res, label, text, ast_spec, swallow, cached=False):
                           dict(ww, expected=repr(want_log), observed=repr(log)))
 
 
+
+# ------------------------------------------------------------------ language-level effects of aborted runs
+ABORT_EXTRA = [
+    'x = [1]; push(x, 2); push(l, 3); x[0] = 9; d["k"] = x; del d["x"]; n += 1; l',
+    'q = v => [push(l, v), v][1]; map([7, 8, 9], q); l',
+    'a = 1; b = [a, a]; c = {"k": b}; c["k"][0] += 1; b[1] -= 1; [a, b, c]',
+    'g = v => v + n; n = 5; r = map(l, g); n = 6; r2 = filter(l, v => v > n); [r, r2]',
+    'w = k => 0 if k < 1 else [push(l, k), w(k - 1)][1]; w(3); l',
+    'x = l; push(x, 1); y = x; pop(y); insert(l, 0, 4); remove(l, 4); [x, y, l]',
+    's += "a"; s += "b"; ls = split(s, "l"); m -= 1; [s, ls, m]',
+    'reduce([1, 2, 3], (acc, v) => [push(l, acc), acc + v][1]); sorted(l, v => 0 - v); l',
+]
+
+
+def abort_effects(res, tpl):
+    """Every abort point of one statement template: the outcome class and the host names mapping left behind by a run aborted at its N-th
+    operation must be those the reference interpreter leaves when it stops at its N-th operation (language-level effects - assignments,
+    container writes on host objects - are host-visible effects just like host calls)."""
+    api = snapshot.api()
+    hs = c07.holes(tpl)
+    pools = [c07.REDUCED.get(h, c07.LEAVES.get(h, []))[:2] if h != 'E' else ['2', 'l'] for h in hs]
+    for vals in c07.product(pools):
+        text = c07.fill(tpl, vals)
+        m = refparse.parse(text)
+        if m[0] != 'ok':
+            continue
+        for hname, spec in c07.host_specs():
+            def model(budget):
+                mn = {k: c07.build_model(v) for k, v in spec.items()}
+                mach = M.Machine(mn, budget=budget, known_builtins=list(api.FUNCTIONS))
+                try:
+                    mach.run(m[1])
+                    o = 'ok'
+                except M.Undefined:
+                    return None
+                except M.LimitErr:
+                    o = 'limit'
+                except M.PErr:
+                    o = 'PErr'
+                except M.OtherErr:
+                    o = 'OtherErr'
+                except (RecursionError, ZeroDivisionError, OverflowError):
+                    return None
+                return o, c07.canon_model({k: v for k, v in mn.items() if not isinstance(v, (M.Closure, M.Builtin))}), mach.ops
+            base = model(None)
+            if base is None or base[2] > 400:
+                res.count('abort_undefined_by_model')
+                continue
+            res.count('abort_programs')
+            prefix_states = []          # the names mapping before the 1st, 2nd, ... N-th operation of the reference run
+            for N in range(1, base[2] + 2):
+                want = model(N)
+                if want is None:
+                    continue
+                if want[1] not in prefix_states:
+                    prefix_states.append(want[1])
+                rn = {k: c07.build_real(v) for k, v in spec.items()}
+                try:
+                    parser().eval(text, rn, max_ops_evaluated=N)
+                    o = 'ok'
+                except api.OpsLimit:
+                    o = 'limit'
+                except api.ParserError:
+                    o = 'PErr'
+                except Exception:  # noqa
+                    o = 'OtherErr'
+                res.count('evals')
+                res.count('abort_points')
+                got = c07.canon_real({k: v for k, v in rn.items() if not callable(v)})
+                w = {'program': text, 'host_names': hname, 'budget': N, 'K': base[2], 'abort_effects': True}
+                res.outcome(f'abort:{c07.site_of(tpl)}:{want[0]}')
+                if o != want[0]:
+                    res.violation(f'abort-outcome:{c07.site_of(tpl)}:{want[0]}->{o}', 'a run under budget N ends differently than the '
+                                  'reference semantics stopped at the N-th operation', dict(w, expected=want[0], observed=o))
+                    break
+                if got == want[1]:
+                    res.count('abort_points_all_earlier_effects_present')
+                elif got not in prefix_states:
+                    # the statement asks for a prefix of the unbounded run's effects: a state the reference run passes through before its
+                    # N-th operation (an implementation that rolls everything back is within the statement; one that lets the N-th or a
+                    # later operation take effect, or keeps some effects and drops earlier ones, is not)
+                    res.violation(f'abort-effects:{c07.site_of(tpl)}', 'the host names mapping left behind by a run aborted at its N-th operation is not '
+                                  'a state the reference semantics pass through before the N-th operation (an effect at / after the abort, or an '
+                                  'earlier effect lost while a later one was kept)',
+                                  dict(w, expected='one of: ' + repr(prefix_states[::-1])[:400], observed=repr(got)[:400]))
+                    break
+
+
 # ------------------------------------------------------------------ histories
 
 HIST_CALLS = ['ax9 + 1', 'nested_safe("u_undefined + 1"); f(1)', 'f = v => v + 1; nested_safe("1 / 0"); map(l, f)', 'f = v => v + 1; nested("f(1)")', 'h9 = v => t(v); nested("map(l, h9) | len") + h9(1)', 'nested("1 + 1"); f(1)', 'nested("f(1)") + f(2)', 'f = v => v + 1', 'f = v => t(v) + t(v) + v', 'f = v => map(l, w => w + v)', 'f(1)', 'f(2) + f(3)', 'map(l, f)',
@@ -457,6 +545,10 @@ def work(task):
         thread_check(res)
         return res
     kind = task[0]
+    if kind == 'abort':
+        for tpl in task[1]:
+            abort_effects(res, tpl)
+        return res
     if kind == 'driver':
         _, label, text, spec, sw = task
         sweep(res, label, text, spec, sw)
@@ -520,6 +612,8 @@ def main(tier, seed, t0):
     step = max(1, len(hists) // 48)
     tasks += [('hist', hists[i:i + step]) for i in range(0, len(hists), step)]
     tasks.append(('threads',))
+    tpls = [t for t in c07.STATEMENTS if t != '{E}'] + ABORT_EXTRA
+    tasks += [('abort', tpls[i::24]) for i in range(24)]
     tasks = runner.rotate(tasks, seed)
     total = runner.run_tasks(work, tasks)
     n = total.n
@@ -554,6 +648,9 @@ def replay(w):
         alone = [run_threads([p], [0] * 10)[0] for p in progs]
         bad = any(g[3] for g in got) or any((g[0], g[1], g[2], g[4]) != (a[0], a[1], a[2], a[4]) for g, a in zip(got, alone))
         return ('REPRODUCED' if bad else 'HOLDS') + f"\n schedule={w['schedule']} -> {[g[:4] for g in got]!r}\n alone -> {[a[:4] for a in alone]!r}"
+    if w.get('abort_effects'):
+        abort_effects(res, w['program'])          # the program text has no holes left: exactly this program, every abort point
+        return ('REPRODUCED' if res.viol else 'HOLDS') + f"\n {w['program']!r}\n " + repr({k: v[1][:1] for k, v in res.viol.items()})[:800]
     if 'history' in w:
         if w.get('budget_of_last_call') is None and w.get('expected') == 'ok':
             base = run_hist_call(res, w['history'], [None] * len(w['history']))
